@@ -1,5 +1,5 @@
 (* Executable entry points for C01: correspondence ops (model) and specification oracles. *)
-From Verif Require Import Lib.Bytes Json.Ast Json.Parse Json.Print Json.CanonC01 Json.CanonSpecC01.
+From Verif Require Import Lib.Bytes Json.Ast Json.Parse Json.Print Json.CanonC01 Json.CanonSpecC01 Crash.Outcome Json.CompactModelC01.
 Open Scope N_scope.
 
 Definition show (r : option bytes) : bytes :=
@@ -34,6 +34,34 @@ Definition run_enum (args : list bytes) : bytes :=
   | [alpha; n; prefix] =>
       match parse_dec n with
       | Some k => enum_texts (N.to_nat k) alpha (rev prefix)
+      | None => bs "badargs"
+      end
+  | _ => bs "badargs"
+  end.
+
+(* [t] -> CompactJSON(t, nil) through the byte-level model: the bytes, or PANIC when an index read
+   leaves the input *)
+Definition run_compact_raw (args : list bytes) : bytes :=
+  match args with
+  | [t] => match compact_model t with Ret b => bs "ok:" ++ b | Crash => bs "PANIC" end
+  | _ => bs "badargs"
+  end.
+
+(* [alphabet; n; prefix] -> for EVERY text over the alphabet extending the prefix by at most n
+   symbols: the text and what CompactJSON makes of it *)
+Fixpoint enum_compact (n : nat) (alpha : bytes) (revp : bytes) : bytes :=
+  (let t := rev revp in
+   t ++ [62] ++ match compact_model t with Ret b => b | Crash => [33; 80] end ++ [10]) ++
+  match n with
+  | O => []
+  | S n' => flat_map (fun c => enum_compact n' alpha (c :: revp)) alpha
+  end.
+
+Definition run_enum_compact (args : list bytes) : bytes :=
+  match args with
+  | [alpha; n; prefix] =>
+      match parse_dec n with
+      | Some k => enum_compact (N.to_nat k) alpha (rev prefix)
       | None => bs "badargs"
       end
   | _ => bs "badargs"
@@ -90,6 +118,19 @@ Definition prop_idempotent (args : list bytes) : bytes :=
           | None => bs "FAIL output refused by canonicalisation"
           end
       end
+  | _ => bs "badargs"
+  end.
+
+(* CompactJSON on any bytes panics exactly on the texts the scanner refuses, and never on a text the
+   validity gate accepts.  [t; obs] with obs from run_compact_raw *)
+Definition prop_compact_safe (args : list bytes) : bytes :=
+  match args with
+  | [t; obs] =>
+      let panicked := bytes_eqb obs (bs "PANIC") in
+      if json_valid t && panicked then bs "FAIL CompactJSON panics on valid JSON"
+      else if Bool.eqb panicked (negb (compact_safe t)) then bs "ok"
+      else if panicked then bs "FAIL panic on a text the scanner calls safe"
+      else bs "FAIL no panic on a text the scanner calls unsafe"
   | _ => bs "badargs"
   end.
 
@@ -150,10 +191,13 @@ Definition ops_C01 : list (bytes * (list bytes -> bytes)) :=
     (bs "C01.valid", run_valid);
     (bs "C01.pair", run_pair);
     (bs "C01.enum", run_enum);
+    (bs "C01.compact_raw", run_compact_raw);
+    (bs "C01.enum_compact", run_enum_compact);
     (bs "C01.const_same", fun _ => bs "same");
     (bs "C01.prop.same_value", prop_same_value);
     (bs "C01.prop.canonical_form", prop_canonical_form);
     (bs "C01.prop.idempotent", prop_idempotent);
     (bs "C01.prop.all", prop_all);
     (bs "C01.prop.unique", prop_unique);
+    (bs "C01.prop.compact_safe", prop_compact_safe);
     (bs "C01.prop.enforced", prop_enforced) ].
